@@ -157,13 +157,17 @@ func ReproduceH(spec *HSpec) func(f *Found) (bool, error) {
 		if f.Cfg != nil {
 			sc.Cfg = *f.Cfg
 		}
-		viol, _ := spec.Eval(r, &sc, f.Hist, nil)
-		for _, v := range viol {
-			if v.Kind == "harness" {
-				return false, fmt.Errorf("harness: %s", v.Detail)
-			}
-			if v.Kind == f.Kind && v.Sig == f.Sig {
-				return true, nil
+		// Up to 3 attempts: outcomes that depend on Go map iteration order
+		// inside the implementation do not recur on every run.
+		for attempt := 0; attempt < 3; attempt++ {
+			viol, _ := spec.Eval(r, &sc, f.Hist, nil)
+			for _, v := range viol {
+				if v.Kind == "harness" {
+					return false, fmt.Errorf("harness: %s", v.Detail)
+				}
+				if v.Kind == f.Kind && v.Sig == f.Sig {
+					return true, nil
+				}
 			}
 		}
 		return false, nil
